@@ -210,6 +210,65 @@ run:
 			}
 		}
 	}
+	if phase == 1 && cfg.proto == "tcp" {
+		// burst: 300 small data sets are sent before the consumer reads anything (an application that drains
+		// GetMsgChan() late); over TCP/TLS every one of them must still arrive, in order
+		for _, c := range cases {
+			if len(c.records) == 0 || len(refcodec.EncodeRecord(c.template(300), c.records[0])) > 120 || len(refcodec.EncodeRecord(c.template(300), c.records[len(c.records)-1])) > 120 {
+				continue
+			}
+			slot.Update(cfg.name + ", burst with template " + c.name)
+			id := ep.NewTemplateID()
+			if _, err := ep.SendSet(c.tmplSet(id)); err != nil {
+				report(c01fail{"send-error", fmt.Sprintf("burst template: %v", err), c.name})
+				return
+			}
+			if m := recv(); m == nil {
+				report(c01fail{"not-delivered", "burst: the template message was not delivered within 10 s", c.name})
+				return
+			}
+			const burst = 300
+			pickRec := func(i int) [][]byte {
+				if i%2 == 0 {
+					return c.records[0]
+				}
+				return c.records[len(c.records)-1]
+			}
+			for i := 0; i < burst; i++ {
+				if _, err := ep.SendSet(c.dataSet(id, [][][]byte{pickRec(i), pickRec(i / 3)}[:1+i%2], i)); err != nil {
+					report(c01fail{"send-error", fmt.Sprintf("burst data set #%d: %v", i, err), c.name})
+					return
+				}
+			}
+			time.Sleep(50 * time.Millisecond)
+			for i := 0; i < burst; i++ {
+				m := recv()
+				if m == nil {
+					report(c01fail{"not-delivered", fmt.Sprintf("burst: %d data sets were sent before the consumer started reading; only %d were delivered (the next one not within 10 s)", burst, i), c.name})
+					return
+				}
+				want := [][][]byte{pickRec(i), pickRec(i / 3)}[:1+i%2]
+				recs := m.GetSet().GetRecords()
+				if len(recs) != len(want) {
+					report(c01fail{"record-count", fmt.Sprintf("burst: delivery #%d has %d records, data set #%d was sent with %d (lost, duplicated or reordered)", i, len(recs), i, len(want)), c.name})
+					return
+				}
+				for ri, rec := range recs {
+					if len(rec.GetOrderedElementList()) != len(c.elems) {
+						report(c01fail{"field-count", fmt.Sprintf("burst: delivery #%d record %d has %d fields, sent %d", i, ri, len(rec.GetOrderedElementList()), len(c.elems)), c.name})
+						return
+					}
+					for fi, e := range c.elems {
+						if got, w := common.ImplValue(rec.GetOrderedElementList()[fi]), common.RefValue(e.ie.DataType, want[ri][fi]); got != w {
+							report(c01fail{"field-value", fmt.Sprintf("burst: delivery #%d record %d field %d (%s): delivered %s, data set #%d carried %s", i, ri, fi, e.ie.Name, short([]byte(got)), i, short([]byte(w))), c.name})
+							return
+						}
+					}
+				}
+			}
+			break
+		}
+	}
 	ep.CloseConnToCollector()
 	if phase == 1 && !(cfg.encrypted && cfg.proto == "udp") && len(cases) > 2 {
 		// phase 2: the exporter restarts and numbers its templates from 256 again, in the same
